@@ -601,7 +601,7 @@ def r5_lexer(facts, rep):
     for first in sorted(set(alphabet)):
         dom = PatternLexDomain(ats, facts=facts)
         it = core.Interp(facts, dom, budget=400000)
-        st = dom.setlex({(0, 0): c12.lexer_value(False)}, first, None)
+        st = dom.setlex({(0, 0): c12.lexer_value(False, facts)}, first, None)
         try:
             outs = it.run(body, [Ref(0, 0)], st)
         except core.Undecided as e:
